@@ -45,8 +45,15 @@ def plan(tier, seed):
                 for key, c, h in clocks:
                     for aname, fmt_ in ARR:
                         yield (d, c, key, aname, fmt_.format(d=d, c=c), h, ts)
+        if tier == "quick":
+            # roll-over reference time (the resolved day lies in the next year): reference-time dependent day expressions x two clock times
+            for d in DAYS[7:]:
+                for key, c, h in clocks:
+                    if h in (8, 17):
+                        for aname, fmt_ in ARR:
+                            yield (d, c, key, aname, fmt_.format(d=d, c=c), h, "2019-12-31T23:59:30")
 
-    space = {"day_expressions": len(DAYS), "clock_strings": len(clocks), "clock_times": len(times), "arrangements": len(ARR), "reference_times": len(ts_list)}
+    space = {"day_expressions": len(DAYS), "clock_strings": len(clocks), "clock_times": len(times), "arrangements": len(ARR), "reference_times": len(ts_list), "rollover_reference_time_quick": "2019-12-31T23:59:30 for the reference-time dependent day expressions x clock hours {8, 17}"}
     return {"space": space, "cases": gen(), "chunk": 128, "hash_distinct": tier == "quick"}
 
 
